@@ -31,10 +31,23 @@ def plan(tier, seed):
     return [{'histories': 50, 'calls': 120, 'fresh_per_history': 125} for _ in range(16)]
 
 
+_LAST = {}
+
+
 def gen_call(rnd, a5, gen):
     k = rnd.choice(FUNCS)
-    kind = rnd.choice(('uniform', 'polar', 'antimeridian', 'frame', 'frame'))
-    p, r = gen.point(rnd, a5, kind)
+    kind = rnd.choice(('uniform', 'polar', 'antimeridian', 'frame', 'frame', 'edge', 'seam'))
+    if kind == 'frame' and _LAST.get('frame') is not None and rnd.random() < 0.5:
+        # stay at the frame point of the previous call but land on another side of it: consecutive lookups that straddle a face
+        # edge / vertex / centre are where 'remember the previous answer' shortcuts go wrong
+        i = _LAST['frame']
+        p, r = gen.p_frame(rnd, i, -9, -4), (_LAST['r'] if rnd.random() < 0.5 else rnd.randint(0, 29))
+    elif kind == 'frame':
+        i = rnd.randrange(62)
+        p, r = gen.p_frame(rnd, i, -9, -4) if rnd.random() < 0.5 else gen.p_frame(rnd, i), rnd.randint(0, 29)
+        _LAST['frame'], _LAST['r'] = i, r
+    else:
+        p, r = gen.point(rnd, a5, kind)
     p = (float(p[0]), float(p[1]))
     if k == 'lonlat_to_cell':
         return ('lonlat_to_cell', [list(p), r])
@@ -51,7 +64,7 @@ def gen_call(rnd, a5, gen):
             o['closed_ring'] = rnd.choice([True, False])
         return ('cell_to_boundary', [c, o])
     if k == 'cell_to_children':
-        return (k, [c, min(29, r + rnd.randint(0, 2))])
+        return (k, [c, min(29, r + (rnd.choice((5, 6, 6, 7)) if rnd.random() < 0.06 else rnd.randint(0, 2)))])
     if k == 'cell_to_parent':
         return (k, [c, rnd.randint(-1, r)])
     if k == 'get_resolution':
@@ -67,6 +80,8 @@ def gen_call(rnd, a5, gen):
             ch = ch[:-1] + [c]
         return (k, [ch])
     if k == 'uncompact':
+        if rnd.random() < 0.06:
+            return (k, [[c, a5.cell_to_children(a5.cell_to_parent(c))[-1]] if r > 0 and rnd.random() < 0.5 else [c], min(29, r + rnd.choice((4, 5, 6)))])
         return (k, [[c, c] if rnd.random() < 0.2 else [c], min(29, r + rnd.randint(0, 2))])
     if k == 'u64_to_hex':
         return (k, [c])
